@@ -44,6 +44,12 @@ CHECKS = {
             "Product order, Sum, Diagonal broadcasting idiom, Transpose, Adjoint, TriangularInv incl. the lower flag); the default _rmatmat's self-adjoint shortcut must equal X*A "
             "under H(A)=A; each transpose/adjoint rule must equal T(A) / C(T(A)) under its own cond and its operand kind's defining equation; .T/.H must delegate to them.",
             "Opaque by declaration: FFT, Jacobian, Sliced values, the linear_transpose branch. Numerical agreement for nestings is not decided.", "4/C02"),
+    "C03": ("term rewriting of the operator overloads and dot/add/mul/kron/kronsum rules against the matrix expression each stands for; structural checks of shape validation and composite metadata",
+            "Decides the algebraic meaning of every Python operator overload of LinearOperator (A+x, A-x, -A, c*A, A/c, c/A, A@B, B@A, the A+0 shortcut) and of every rewrite rule "
+            "(factor order for Product/Kronecker/KronSum flattening, multiset for Sum, identity dropping, scalar merging, diagonal Kronecker fusion in row-major order, scalar operator "
+            "placed on the side whose size it has), that Product/Sum constructors and @ validate the contracted dimensions before building, and that the dtype of *Ms composites is a "
+            "reduction over all parts.",
+            "The value of the represented matrix and error messages are not decided; totality/unambiguity of the combinators is C04.", "4/C03"),
 }
 
 NOT_APPLICABLE = {
